@@ -544,7 +544,21 @@ func (x *fx) frameVsEntry(pre *memNode) func(name, newV, oldV string) {
 			x.assume("(>= " + newV + " " + oldV + ")")
 			return
 		}
-		if x.c.ModAll || x.c.Abstract && x.pass == 2 && false {
+		if strings.HasPrefix(name, "$g.") {
+			// ghost state is changed only through callee contracts that list it; an
+			// unmodelled callee (abstracted mode) or a loop that calls none leaves it alone
+			listed := false
+			for _, r := range x.regions {
+				if r.mem == name {
+					listed = true
+				}
+			}
+			if !listed || x.ghostHavocIsUnmodelled {
+				x.assume("(= " + newV + " " + oldV + ")")
+				if x.ghostHavocIsUnmodelled {
+					x.assumptions["unmodelled callees (abstracted mode) do not change ghost state "+name] = true
+				}
+			}
 			return
 		}
 		if x.c.ModAll {
@@ -627,6 +641,7 @@ func (x *fx) checkFrameStore(t types.Type, ref, off string, pe *pathEl) {
 // ---------------------------------------------------------------------------
 
 func (x *fx) instr(in ssa.Instruction) {
+	x.curInstr = in
 	switch i := in.(type) {
 	case *ssa.DebugRef:
 		return
@@ -732,6 +747,9 @@ func (x *fx) boundsCheck(idx, n, what string) {
 func (x *fx) alloc(i *ssa.Alloc) {
 	t := i.Type().Underlying().(*types.Pointer).Elem()
 	ref := x.newRef(i.Name())
+	if !i.Heap {
+		x.localRefs = append(x.localRefs, ref)
+	}
 	x.vals[i] = &Val{T: i.Type(), S: fmt.Sprintf("(mk-ptr %s %s)", ref, x.idxConst(0))}
 	x.zeroInit(t, ref)
 }
